@@ -498,8 +498,20 @@ def r4_enums(ctx, schema: Schema, mi) -> None:
   pcc = mi.classes.get('ParameterConfigConverter')
   if pcc is not None:
     w = pcc.methods['to_proto']
-    guarded = any(isinstance(x, ast.Compare) and 'UNIFORM_DISCRETE' in unparse(x, 0) and isinstance(x.ops[0], ast.NotEq)
-                  for x in ast.walk(w.node))
+    from vzstatic import enumeval
+    from vzstatic import cfg as cfgmod
+    gw = cfgmod.CFG(w.node)
+    guarded = True
+    n_calls = 0
+    for c in [x for x in ast.walk(w.node) if isinstance(x, ast.Call) and (dotted(x.func) or '').endswith('_ScaleTypeMap.to_proto') and x.args]:
+      n_calls += 1
+      subj = unparse(c.args[0], 0)
+      conds = gw.controlling_conditions(gw.node_of(c))
+      excl = any(enumeval.eval_test(t, {subj: 'UNIFORM_DISCRETE'}) is (not pol) for t, pol in conds)
+      none_excl = any(enumeval.eval_test(t, {subj: None}) is (not pol) for t, pol in conds)
+      guarded = guarded and excl and none_excl
+    if n_calls == 0:
+      raise AnalysisError('ParameterConfigConverter.to_proto: call of _ScaleTypeMap.to_proto not found')
     ctx.check(guarded, 'R4', 'ParameterConfigConverter.to_proto: UNIFORM_DISCRETE excluded', w.node,
               'scale_type UNIFORM_DISCRETE (no proto value) is not sent to the table',
               'UNIFORM_DISCRETE reaches _ScaleTypeMap.to_proto, which has no entry for it', construct='uniform-discrete', func=w.qualname)
@@ -513,16 +525,17 @@ def r4_enums(ctx, schema: Schema, mi) -> None:
   missing = [s for s in st if s not in mentioned and s != 'STATE_UNSPECIFIED']
   ctx.check(not missing, 'R4', '_to_pyvizier_trial_status covers Trial.State', f_to.node,
             f'arms for {sorted(mentioned)}', f'no arm for {missing}: such trials become UNKNOWN', construct=str(missing), func=f_to.qualname)
-  # both completed states map to COMPLETED
-  comp = 0
-  for node in ast.walk(f_to.node):
-    if isinstance(node, ast.If) and isinstance(node.test, ast.Compare):
-      t = unparse(node.test, 0)
-      if ('SUCCEEDED' in t or 'INFEASIBLE' in t) and any(
-          isinstance(r, ast.Return) and 'COMPLETED' in unparse(r, 0) for r in node.body):
-        comp += 1
-  ctx.check(comp >= 2, 'R4', 'SUCCEEDED and INFEASIBLE both map to COMPLETED', f_to.node,
-            'both completed states are COMPLETED', 'a completed proto state does not map to TrialStatus.COMPLETED',
+  # both completed states map to COMPLETED (the function is evaluated member by member)
+  from vzstatic import enumeval
+  par = f_to.params[0]
+  table = {}
+  for m in st:
+    r = enumeval.run_function(f_to.node.body, {par: m})
+    table[m] = (dotted(r) or '').rsplit('.', 1)[-1] if isinstance(r, ast.AST) else ('?' if r is enumeval.UNKNOWN else str(r))
+  want = {'SUCCEEDED': 'COMPLETED', 'INFEASIBLE': 'COMPLETED', 'REQUESTED': 'REQUESTED', 'ACTIVE': 'ACTIVE', 'STOPPING': 'STOPPING'}
+  wrong = {m: table.get(m) for m, w_ in want.items() if m in st and table.get(m) != w_}
+  ctx.check(not wrong, 'R4', 'SUCCEEDED and INFEASIBLE both map to COMPLETED', f_to.node,
+            f'state -> status table {table}', f'proto states are mapped to the wrong status: {wrong} (expected {want})',
             construct='completed-map', func=f_to.qualname)
   produced = {x.attr for x in ast.walk(f_from.node) if isinstance(x, ast.Attribute) and x.attr in st}
   missing2 = [s for s in st if s not in produced]
